@@ -20,6 +20,15 @@ Requests (tokens after `C09`), lists are comma separated, `-` = empty list:
   run raised (the contents as the exception left them); for `estwopoint(s)` the answer is
   `cc <R> vv <R> vc <R>` (disciplines of the individuals and of their strategies);
   `bufc <op> …` answers the `copy` (`cc`) part only
+* `hist <event> <event> …`: a HISTORY of events in one process, run on the machine `OpHistory` (state = the heaps of
+  objects only).  Event tokens (fields separated by `/`): `nP/L` `nG/L` `nS/L` (the caller creates a permutation /
+  integer / strategy object; these come first), `sP/id/L` … (the caller stores into its object), `P/d/<op>/…` and
+  `G/d/<op>/…` (generic operator on permutation / integer objects, `d` = `c` copy or `v` view, the arguments are object
+  ids then the draws), `pmx/d/i1/i2/c1/c2`, `upmx/d/i1/i2/indpb/RS`, `ox/d/i1/i2/a/b`, `ui/d/i/LOW/UP/indpb/RS/VS`
+  (`LOW`,`UP` = `s:<int>` or `o:<id>`: a bound OBJECT, read when the call is made), `es/dg/ds/i1/i2/s1/s2/p1/p2`, `ess/…`,
+  `rf/<Exception>/P|G/ids` (a call that raised before it touched an object).  Answer: for every event
+  `ok:<returned ids>` or `raise:<Exception>` followed by the contents of the objects it names, events separated by ` | `,
+  then `end` and every object of the process
 
 Answers: the contents of the argument objects after the call followed by the ids of the returned
 objects (the arguments carry the ids 0,1,… in argument order; ES strategies 2,3);
@@ -197,6 +206,120 @@ def handleBuf : List String → String
 
 end Buf
 
+/-! ### histories (`hist`): several calls in ONE process over the machine `OpHistory` of `Core/CrossMutBuf.lean` -/
+section Hist
+open Buffer OpHistory
+
+def parseDisc (s : String) : Option Disc :=
+  if s = "c" then some .copy else if s = "v" then some .view else none
+
+def parseErr (s : String) : Option Err :=
+  if s = "IndexError" then some .index else if s = "ValueError" then some .value else none
+
+def parseBRef (s : String) : Option BRef :=
+  if s.startsWith "s:" then (parseInt (s.drop 2).toString).map BRef.scalar
+  else if s.startsWith "o:" then (parseNat (s.drop 2).toString).map BRef.obj
+  else none
+
+/-- a generic operator and the ids of the objects it names -/
+def parseGen : List String → Option (Gen × List Nat)
+  | ["onepoint", a, b, c] => do
+    let i1 ← parseNat a; let i2 ← parseNat b; let cx ← parseNat c; pure (.onepoint i1 i2 cx, [i1, i2])
+  | ["twopoint", a, b, c, d] => do
+    let i1 ← parseNat a; let i2 ← parseNat b; let c1 ← parseNat c; let c2 ← parseNat d; pure (.twopoint i1 i2 c1 c2, [i1, i2])
+  | ["twopoints", a, b, c, d] => do
+    let i1 ← parseNat a; let i2 ← parseNat b; let c1 ← parseNat c; let c2 ← parseNat d; pure (.twopoints i1 i2 c1 c2, [i1, i2])
+  | ["messy", a, b, c, d] => do
+    let i1 ← parseNat a; let i2 ← parseNat b; let c1 ← parseNat c; let c2 ← parseNat d; pure (.messy i1 i2 c1 c2, [i1, i2])
+  | ["uniform", a, b, p, r] => do
+    let i1 ← parseNat a; let i2 ← parseNat b; let pb ← parseFloat p; let rs ← parseList parseFloat r
+    pure (.uniform i1 i2 (decisions pb rs), [i1, i2])
+  | ["shuffle", a, p, r, v] => do
+    let i ← parseNat a; let pb ← parseFloat p; let rs ← parseList parseFloat r; let vs ← parseList parseNat v
+    pure (.shuffle i (drawOpts pb rs vs), [i])
+  | ["flip", a, p, r] => do
+    let i ← parseNat a; let pb ← parseFloat p; let rs ← parseList parseFloat r; pure (.flip i (decisions pb rs), [i])
+  | ["inversion", a, c, d] => do
+    let i ← parseNat a; let i1 ← parseNat c; let i2 ← parseNat d; pure (.inversion i i1 i2, [i])
+  | _ => none
+
+/-- what is printed after an event: the objects it names, heap by heap -/
+structure Watch where
+  perm : List Nat := []
+  gene : List Nat := []
+  strat : List Nat := []
+
+def brefObjs : BRef → List Nat
+  | .scalar _ => []
+  | .obj id => [id]
+
+def parseEvent (tok : String) : Option (Event × Watch) :=
+  match tok.splitOn "/" with
+  | ["nP", l] => (parseList parseNat l).map fun v => (.newP v, {})
+  | ["nG", l] => (parseList parseInt l).map fun v => (.newG v, {})
+  | ["nS", l] => (parseList parseInt l).map fun v => (.newS v, {})
+  | ["sP", i, l] => do let id ← parseNat i; let v ← parseList parseNat l; pure (.storeP id v, {})
+  | ["sG", i, l] => do let id ← parseNat i; let v ← parseList parseInt l; pure (.storeG id v, {})
+  | ["sS", i, l] => do let id ← parseNat i; let v ← parseList parseInt l; pure (.storeS id v, {})
+  | ["rf", e, slot, l] => do
+    let err ← parseErr e; let ids ← parseList parseNat l
+    if slot = "P" then pure (.refused err, { perm := ids })
+    else if slot = "G" then pure (.refused err, { gene := ids })
+    else none
+  | "P" :: d :: rest => do let dd ← parseDisc d; let g ← parseGen rest; pure (.permOp dd g.1, { perm := g.2 })
+  | "G" :: d :: rest => do let dd ← parseDisc d; let g ← parseGen rest; pure (.geneOp dd g.1, { gene := g.2 })
+  | ["pmx", d, a, b, c, e] => do
+    let dd ← parseDisc d; let i1 ← parseNat a; let i2 ← parseNat b; let c1 ← parseNat c; let c2 ← parseNat e
+    pure (.pmx dd i1 i2 c1 c2, { perm := [i1, i2] })
+  | ["upmx", d, a, b, p, r] => do
+    let dd ← parseDisc d; let i1 ← parseNat a; let i2 ← parseNat b; let pb ← parseFloat p; let rs ← parseList parseFloat r
+    pure (.upmx dd i1 i2 (decisions pb rs), { perm := [i1, i2] })
+  | ["ox", d, a, b, c, e] => do
+    let dd ← parseDisc d; let i1 ← parseNat a; let i2 ← parseNat b; let c1 ← parseNat c; let c2 ← parseNat e
+    pure (.ox dd i1 i2 c1 c2, { perm := [i1, i2] })
+  | ["ui", d, a, lo, hi, p, r, v] => do
+    let dd ← parseDisc d; let i ← parseNat a; let low ← parseBRef lo; let up ← parseBRef hi; let pb ← parseFloat p
+    let rs ← parseList parseFloat r; let vs ← parseList parseInt v
+    pure (.uniformint dd i low up (drawOpts pb rs vs), { gene := [i] ++ brefObjs low ++ brefObjs up })
+  | [es, dg, ds, a, b, c, d, e, f] => do
+    let g ← parseDisc dg; let s ← parseDisc ds; let i1 ← parseNat a; let i2 ← parseNat b; let s1 ← parseNat c
+    let s2 ← parseNat d; let p1 ← parseNat e; let p2 ← parseNat f
+    if es = "es" then pure (.es g s i1 i2 s1 s2 p1 p2, { gene := [i1, i2], strat := [s1, s2] })
+    else if es = "ess" then pure (.ess g s i1 i2 s1 s2 p1 p2, { gene := [i1, i2], strat := [s1, s2] })
+    else none
+  | _ => none
+
+def showOutcome : Outcome → String
+  | .ok ret => "ok:" ++ showNats ret
+  | .raise e => "raise:" ++ showErr e
+
+def showWatch (st : State) (w : Watch) : String :=
+  String.join (w.perm.map fun id => " P" ++ toString id ++ "=" ++ showNats (st.perm.cell id))
+  ++ String.join (w.gene.map fun id => " G" ++ toString id ++ "=" ++ showInts (st.gene.cell id))
+  ++ String.join (w.strat.map fun id => " S" ++ toString id ++ "=" ++ showInts (st.strat.cell id))
+
+/-- every object the caller created (the `new` events come first, so these are the ids below the counts) -/
+def dump (st : State) (np ng ns : Nat) : String :=
+  showWatch st { perm := List.range np, gene := List.range ng, strat := List.range ns }
+
+def runHist : List (Event × Watch) → State → Nat × Nat × Nat → List String → String
+  | [], st, (np, ng, ns), acc => " | ".intercalate (acc.reverse ++ ["end" ++ dump st np ng ns])
+  | (e, w) :: rest, st, (np, ng, ns), acc =>
+    let r := step st e
+    let cnt := match e with
+      | .newP _ => (np + 1, ng, ns)
+      | .newG _ => (np, ng + 1, ns)
+      | .newS _ => (np, ng, ns + 1)
+      | _ => (np, ng, ns)
+    runHist rest r.2 cnt ((showOutcome r.1 ++ showWatch r.2 w) :: acc)
+
+def handleHist (toks : List String) : String :=
+  match toks.mapM parseEvent with
+  | some evs => if evs.isEmpty then "bad-op" else runHist evs OpHistory.init (0, 0, 0) []
+  | none => "bad-op"
+
+end Hist
+
 /-- the `copy` part of a `buf` answer only (`bufc`): for a call whose numpy run behaved like the list run -/
 def copyPart (ans : String) : String :=
   match (ans.splitOn " view ") with
@@ -208,6 +331,7 @@ def copyPart (ans : String) : String :=
 
 def handle : List String → String
   | "buf" :: rest => handleBuf rest
+  | "hist" :: rest => handleHist rest
   | "bufc" :: rest => copyPart (handleBuf rest)
   | ["onepoint", a, b, c] =>
     match (do let l1 ← parseList parseInt a; let l2 ← parseList parseInt b; let cx ← parseNat c; pure (l1, l2, cx)) with
